@@ -35,6 +35,9 @@ CHECKS.update({
     "C12": bounded("Executable postconditions on totals and headings; ALL 16 subsets of the four vulnerability patterns x all 21 file/line shapes per pattern enumerated completely (234,256 maps) + all 64 category-state combinations of the whole report + seeded random maps.", "String concatenation, by-value iteration over HashMap, integer to_string", "§9 C11-C13"),
     "C13": bounded("Relational check: the same findings set rendered from fresh HashMap instances (different hash seeds), permuted insertion orders of patterns and of (file, lines) vectors, and child processes must give byte-identical text equal to the canonical rendering.", "HashMap iteration order / per-process hash seeds", "§9 C11-C13"),
     "C14": bounded("Executable contract of str_to_* / get_all_* over every documented name (scraped from docs/, README.md, Solstat.toml on each run) x casings, junk names rejected; precedence --path > toml path > ./contracts and exact pattern selection observed through hook H1 and the report of the real binary; unknown name => non-zero exit and no report.", "clap, toml, process exit status or str::to_lowercase", "§9 C14"),
+    "C02": bounded("get_line_number(off, s) == 1 + #LF before off: EXHAUSTIVE over all texts of <= 7 characters over {a, LF, CR, e-acute} x all admissible offsets (109,227 cases) + seeded long texts; analyze_for_* line sets == lines of the detector's location starts over programs x 15 layouts x 30 detectors. Which node's location each detector reports is part of the Verus contracts of C05-C07 (loc_P).", "the regex crate (external iterator types) or by-value iteration over HashSet", "§9 C02"),
+    "C17": bounded("Relational check over token-preserving re-layouts (one token per line as reference, CRLF, random white space, code-like comments, multi-byte comments, string contents neutralised): the same tokens start flagged constructs, for 30 detectors. Deductive half: every spec predicate pat_P of the Verus units is Loc-blind.", "the lexer/parser (an unverified dependency)", "§9 C17"),
+    "C15": bounded("Each (file, pattern) evaluated alone, repeated, with different file numbers, after the 29 other patterns in seeded permuted orders, from 8 concurrently running threads and in a fresh process; results compared. Thread interleavings are sampled by the OS scheduler, not explored. Deductive half: every function with a proved functional postcondition (Verus units) is a function of its arguments only; frame scan for statics/thread_locals/interior mutability.", "threads (neither Verus without its permission types nor Kani) or process state", "§9 C15"),
     "C18": bounded("Frame contract of a run of the real binary ('modifies exactly ./solstat_report.md, by replacement') checked by recursive before/after snapshots over trees x working directories x previous-report states, two runs in a row.", "the file system or process effects", "§9 C18"),
 })
 
